@@ -1,4 +1,5 @@
 import GeffProofs.Lineage
+import GeffProofs.LineageRename
 /-! # C14 — lineage validation decides the documented lineage definition
 
 Property theorems only.  Model: `Geff.Lineage.validateLineages` / `lineageErrors`
@@ -85,6 +86,84 @@ theorem uniq_of_nodup (nl : List (α × L)) (h : (nl.map (·.1)).Nodup) :
     · subst e1; exact absurd rfl (h.1 (u, l') m2)
     · subst e2; exact absurd rfl (h.1 (u, l) m1)
     · exact ih h.2 u l l' m1 m2
+
+/-- the labelled node list under a renaming `f` of the node ids and `g` of the lineage ids -/
+def rename {β M : Type} (f : α → β) (g : L → M) (nl : List (α × L)) : List (β × M) :=
+  nl.map (Prod.map f g)
+
+theorem mem_rename {β M : Type} (f : α → β) (g : L → M) (nl : List (α × L)) (x : β) (m : M) :
+    (x, m) ∈ rename f g nl ↔ ∃ u l, (u, l) ∈ nl ∧ x = f u ∧ m = g l := by
+  unfold rename
+  constructor
+  · intro h
+    obtain ⟨⟨u, l⟩, hm, he⟩ := List.mem_map.1 h
+    simp only [Prod.map, Prod.mk.injEq] at he
+    exact ⟨u, l, hm, he.1.symm, he.2.symm⟩
+  · rintro ⟨u, l, hm, rfl, rfl⟩
+    exact List.mem_map.2 ⟨(u, l), hm, rfl⟩
+
+/-- **C14 (up to renaming)**: the specification is invariant under injective renamings of node ids
+and of lineage ids — "labellings up to renaming" in the property's quantifier, and the reason why
+the verdict may depend only on the integer values, not on their dtype or magnitude. -/
+theorem C14_spec_renaming {β M : Type} [DecidableEq β] [DecidableEq M]
+    (f : α → β) (g : L → M) (hf : Function.Injective f) (hg : Function.Injective g)
+    (nl : List (α × L)) (es : List (α × α)) :
+    Spec (rename f g nl) (mapEdges f es) ↔ Spec nl es := by
+  constructor
+  · rintro ⟨h1, h2⟩
+    refine ⟨?_, ?_⟩
+    · intro u l v l' hu hv
+      have := h1 (f u) (g l) (f v) (g l') ((mem_rename f g nl _ _).2 ⟨u, l, hu, rfl, rfl⟩)
+        ((mem_rename f g nl _ _).2 ⟨v, l', hv, rfl, rfl⟩)
+      rw [conn_map_iff f hf es u v] at this
+      exact ⟨fun h => this.1 (by rw [h]), fun h => hg (this.2 h)⟩
+    · intro u l x hu hux
+      have := h2 (f u) (g l) (f x) ((mem_rename f g nl _ _).2 ⟨u, l, hu, rfl, rfl⟩) (conn_map f es hux)
+      obtain ⟨⟨y, m⟩, hy, he⟩ := List.mem_map.1 this
+      obtain ⟨y', l', hy', hfy, _⟩ := (mem_rename f g nl y m).1 hy
+      simp only at he
+      have : x = y' := hf (by rw [← hfy, he])
+      subst this
+      exact List.mem_map.2 ⟨(x, l'), hy', rfl⟩
+  · rintro ⟨h1, h2⟩
+    refine ⟨?_, ?_⟩
+    · intro x m y m' hx hy
+      obtain ⟨u, l, hu, rfl, rfl⟩ := (mem_rename f g nl x m).1 hx
+      obtain ⟨v, l', hv, rfl, rfl⟩ := (mem_rename f g nl y m').1 hy
+      rw [conn_map_iff f hf es u v]
+      have := h1 u l v l' hu hv
+      exact ⟨fun h => this.1 (hg h), fun h => by rw [this.2 h]⟩
+    · intro x m y hx hxy
+      obtain ⟨u, l, hu, rfl, rfl⟩ := (mem_rename f g nl x m).1 hx
+      obtain ⟨v, rfl, huv⟩ := conn_of_map f hf es hxy
+      obtain ⟨⟨v', l'⟩, hv', he⟩ := List.mem_map.1 (h2 u l v hu huv)
+      simp only at he
+      subst he
+      exact List.mem_map.2 ⟨(f v', g l'), (mem_rename f g nl _ _).2 ⟨v', l', hv', rfl, rfl⟩, rfl⟩
+
+/-- … and so is the validator model's verdict (unique node ids): renaming ids and labels
+injectively — e.g. shifting all ids by 2^60, or reading them in another integer dtype — cannot
+change the answer. -/
+theorem C14_verdict_renaming {β M : Type} [DecidableEq β] [DecidableEq M]
+    (f : α → β) (g : L → M) (hf : Function.Injective f) (hg : Function.Injective g)
+    (nl : List (α × L)) (es : List (α × α))
+    (huniq : ∀ u l l', (u, l) ∈ nl → (u, l') ∈ nl → l = l') :
+    validateLineages (rename f g nl) (mapEdges f es) = validateLineages nl es := by
+  have huniq' : ∀ x m m', (x, m) ∈ rename f g nl → (x, m') ∈ rename f g nl → m = m' := by
+    intro x m m' h1 h2
+    obtain ⟨u, l, hu, rfl, rfl⟩ := (mem_rename f g nl x m).1 h1
+    obtain ⟨v, l', hv, hxv, rfl⟩ := (mem_rename f g nl (f u) m').1 h2
+    have : u = v := hf hxv
+    subst this
+    rw [huniq u l l' hu hv]
+  have a := C14_iff (rename f g nl) (mapEdges f es) huniq'
+  have b := C14_iff nl es huniq
+  have c := C14_spec_renaming f g hf hg nl es
+  cases h1 : validateLineages (rename f g nl) (mapEdges f es) <;>
+    cases h2 : validateLineages nl es <;> simp_all
+
+example : validateLineages (rename (· + 1152921504606846976) (· * 3) [((1:Nat),(10:Nat)),(2,10),(3,20)])
+    (mapEdges (· + 1152921504606846976) [(1,2)]) = true := by decide
 
 /-- Non-vacuity: a concrete two-component graph with a phantom-free labelling satisfies the
 hypothesis and is accepted; splitting a component, joining two, and a phantom endpoint are
